@@ -157,7 +157,7 @@ def strategy(tier):
 
 def units(tier, seed):
     n = 16 if tier == 'quick' else 32
-    per = 30 if tier == 'quick' else 2000
+    per = 30 if tier == 'quick' else 300
     return [{'kind': 'random', 'n': per, 'seed': core.shard_seed(seed, ID, i)} for i in range(n)]
 
 
